@@ -166,6 +166,8 @@ pub enum Attr {
     Str { name: String, value: String },
     Bare { name: String },
     Expr { name: String, e: Ex },
+    /// `name=<jsx />` (element or fragment as attribute value, no braces)
+    JsxValue { name: String, node: Box<Node> },
     Spread(Ex),
     /// `on={..}` / `nativeOn={..}`
     On { name: String, e: Ex },
@@ -400,6 +402,7 @@ impl Attr {
             Attr::Str { name, value } => format!("{name}={}", render_attr_string(value)),
             Attr::Bare { name } => name.clone(),
             Attr::Expr { name, e } => format!("{name}={{{}}}", e.jsx()),
+            Attr::JsxValue { name, node } => format!("{name}={}", node.jsx()),
             Attr::Spread(e) => format!("{{...{}}}", e.jsx()),
             Attr::On { name, e } => format!("{name}={{{}}}", e.jsx()),
             Attr::Dir(d) => format!(
@@ -620,6 +623,9 @@ impl Element {
                 Attr::Bare { name } => entries.push(format!("[\"b\", {}]", js_str(name))),
                 Attr::Expr { name, e } => {
                     entries.push(format!("[\"a\", {}, {}]", js_str(name), e.reference()))
+                }
+                Attr::JsxValue { name, node } => {
+                    entries.push(format!("[\"a\", {}, {}]", js_str(name), node.reference()))
                 }
                 Attr::Spread(e) => entries.push(format!("[\"sp\", {}]", e.reference())),
                 Attr::On { name, e } => {
